@@ -40,7 +40,7 @@ IsMask(r) == \A i \in 1..4 : r[i] = {} \/ r[i] = Full
 Zero4   == <<{}, {}, {}, {}>>
 
 Funcs   == DOMAIN Progs
-Stride(f)  == IF f = "lookupProjectivePoint" THEN 104 ELSE 64      \* bytes per table entry (Point has a validity flag + padding)
+Stride(f)  == IF f = "lookupProjectivePoint" THEN StridePoint ELSE StrideAffine   \* bytes per table entry, taken from the build under test
 Coord(f)   == IF f = "lookupProjectivePoint" THEN 96 ELSE 64       \* coordinate bytes of an entry / of `out`
 Label(f, name) == CHOOSE i \in 1..Len(Progs[f]) : Progs[f][i].op = "LABEL" /\ Progs[f][i].name = name
 
